@@ -145,8 +145,8 @@ func TestC15(t *testing.T) {
 		addrs := []string{KeyAcc(1).Addr.String(), KeyAcc(2).Addr.String(), "someone", ""}
 		refIDs := []string{strings.Repeat("ab", 32), strings.Repeat("cd", 32), strings.Repeat("0", 64), "short"}
 		links := []string{"link-1", "link-2", "", sha256hex("doc")}
-		modelLinks := map[string]string{}     // payload-link key -> first published value
-		modelSigs := map[string]c15Stored{}   // storage key -> last stored signature object
+		modelLinks := map[string]string{}   // payload-link key -> first published value
+		modelSigs := map[string]c15Stored{} // storage key -> last stored signature object
 		var hist []string
 		note := func(f string, a ...interface{}) { hist = append(hist, fmt.Sprintf(f, a...)) }
 		validVerified, mutationsChecked, republish := 0, 0, 0
@@ -208,8 +208,8 @@ func TestC15(t *testing.T) {
 			"publish": func(t *rapid.T) {
 				ref := refIDs[rapid.IntRange(0, len(refIDs)-1).Draw(t, "ref")]
 				key := sha256hex(ref)
-				if rapid.IntRange(0, 5).Draw(t, "rawKey") == 0 {
-					key = []string{"", "k", key + "x"}[rapid.IntRange(0, 2).Draw(t, "rk")]
+				if rapid.IntRange(0, 3).Draw(t, "rawKey") == 0 {
+					key = []string{"", "k", key + "x", strings.ToUpper(key), strings.ToUpper(key[:8]) + key[8:], " " + key}[rapid.IntRange(0, 5).Draw(t, "rk")]
 				}
 				val := links[rapid.IntRange(0, len(links)-1).Draw(t, "link")]
 				_, existed := modelLinks[key]
